@@ -532,6 +532,8 @@ int32_t psCRL_isRevoked(psX509Cert_t *cert, psX509Crl_t *CRL)
     return rc;
 }
 
+static int32_t internalAuthenticateCRL(psX509Cert_t *CA, psX509Crl_t *CRL);
+
 static int doesCertExpectCRL(psX509Cert_t *cert)
 {
     if (cert->extensions.crlDist)
@@ -585,7 +587,7 @@ int32_t psCRL_determineRevokedStatusBDT(psX509Cert_t *cert,
            attempt to authenticate */
         if (crl->authenticated == 0 && cert->next)
         {
-            psX509AuthenticateCRL(cert->next, crl, NULL);
+            internalAuthenticateCRL(cert->next, crl);
         }
 
         /* test it and set the status */
@@ -779,6 +781,24 @@ static int32 internalMatchIssuer(psX509Cert_t *CA, psX509Crl_t *CRL)
 */
 int32_t psX509AuthenticateCRL(psX509Cert_t *CA, psX509Crl_t *CRL,
         void *poolUserPtr)
+{
+    int32_t rc;
+
+    /* The CRL is usually in the global cache already (psCRL_Update, then
+       this call): its authenticated mark is read by the revocation checks
+       of other threads under the table lock, so it is rewritten under it */
+#  ifdef USE_MULTITHREADING
+    psLockMutex(&g_crlTableLock);
+#  endif /* USE_MULTITHREADING */
+    rc = internalAuthenticateCRL(CA, CRL);
+#  ifdef USE_MULTITHREADING
+    psUnlockMutex(&g_crlTableLock);
+#  endif /* USE_MULTITHREADING */
+    return rc;
+}
+
+/* @pre g_crlTableLock is held */
+static int32_t internalAuthenticateCRL(psX509Cert_t *CA, psX509Crl_t *CRL)
 {
     int32 rc;
 
